@@ -87,6 +87,9 @@ pub struct Shared {
     pub instances: Cell<u32>,
     /// 0 = never fail; k>0: the k-th call (global count) returns Unknown
     pub fail_at: Cell<u32>,
+    /// the backend stays dead after the injected fault (every later call returns Unknown as well), as a killed
+    /// solver process does; false = only the `fail_at`-th call fails
+    pub sticky_fault: Cell<bool>,
     /// a fault was injected
     pub faulted: Cell<bool>,
     /// C16a: some call had an assumption on a variable above n_vars() (the DIMACS header would not cover it)
@@ -186,7 +189,9 @@ impl<const WORDS: usize> SatSolver for Oracle<WORDS> {
             }
             words!(WORDS, w => t[w] &= lit_word(i, w));
         }
-        if (sh.fail_at.get() != 0) & (sh.fail_at.get() == sh.calls.get()) {
+        if (sh.fail_at.get() != 0)
+            & ((sh.fail_at.get() == sh.calls.get()) | (sh.sticky_fault.get() & (sh.fail_at.get() < sh.calls.get())))
+        {
             sh.faulted.set(true);
             return SolvingResult::Unknown;
         }
